@@ -426,3 +426,20 @@ def run(ctx: Context) -> None:  # noqa: F811
 
     ctx.rep.rule('C19.R9', 'a URL / Origin rebuilt from another one copies scheme, host and port from the same-named components of the same object')
     plumb.derived_identity(ctx, 'C19.R9')
+
+
+
+_core_run_r11 = run
+
+
+def run(ctx: Context) -> None:  # noqa: F811
+    _core_run_r11(ctx)
+    if ctx.rep._borrow is not None:
+        return
+    from . import support
+
+    ctx.rep.rule("C19.R11", "URL / origin / header code compares values by value: `is` only against None / True / False / UPPER_CASE sentinels "
+                            "(the truth tables of R4-R10 read `is` as `==`, which is exact for singletons only)")
+    support.identity_tests_on_singletons(ctx, "C19.R11", ("httpcore._models", "httpcore._utils"),
+                                         "equal ports / hosts / schemes are in general different objects (ints above 256, bytes), so the test is False for equal values - "
+                                         "e.g. an explicit `:443` is no longer recognised as the scheme's default port and appears in Host")
